@@ -175,6 +175,7 @@ pub const REPL_KINDS: &[ReplKind] = &[ReplKind::Wrapper, ReplKind::Raw, ReplKind
 pub enum ItemSink {
     Drop,
     Downcast,
+    DowncastUnchecked,
     MovePush,
     Forget,
 }
@@ -250,6 +251,7 @@ where
                 match cx.sinks.get(k).copied().unwrap_or(ItemSink::Drop) {
                     ItemSink::Drop => drop(e),
                     ItemSink::Downcast => cx.owned.push(e.downcast::<C::T>().expect("downcast of a drained element to the real type failed")),
+                    ItemSink::DowncastUnchecked => cx.owned.push(unsafe { any_vec::any_value::AnyValueSizeless::downcast_unchecked::<C::T>(e) }),
                     ItemSink::MovePush => match cx.dst.as_deref_mut() {
                         Some(d) => d.push(e),
                         None => drop(e),
